@@ -347,7 +347,7 @@ def check(prop, tier):
             for f in r['failed']:
                 f['clause'] = clause_text(cfile, f['line']) if f.get('line') and (f.get('file') or '').endswith('lowered.c') else ''
         all_results += rs
-        under = sorted(set([h['enforce'] for h in sel if h['enforce']]))
+        under = sorted(set([h['enforce'] for h in sel if h['enforce']] + [c for h in sel for c in h.get('covers', [])]))
         for c in under:
             if c in em.func_loc:
                 q, f, l = em.func_loc[c]
